@@ -614,6 +614,29 @@ pub fn f_ds(thorough: bool) -> Vec<Unit> {
     units
 }
 
+// ------------------------------------------------------------------------------------------ F-par
+/// serial vs parallel macros (with and without inter-rule parallelism) on a cut through the other families
+pub fn f_par(thorough: bool) -> Vec<Unit> {
+    let mut out = vec![];
+    let step = if thorough { 2 } else { 12 };
+    for (i, u) in f_scc(false).into_iter().enumerate() { if i % step == 0 || u.tag == "scc-multihead" { out.push(u); } }
+    for (i, u) in f_shape(false).into_iter().enumerate() { if i % (if thorough { 10 } else { 80 }) == 0 { out.push(u); } }
+    for u in f_lat(false) { if thorough || u.tag.ends_with("dualu32") || u.tag.ends_with("setu8") || u.tag.ends_with("constprop") || u.tag.ends_with("bool") { out.push(u); } }
+    for (i, u) in f_agg(false).into_iter().enumerate() { if thorough || i % 3 == 0 || u.tag.contains("lattice") { out.push(u); } }
+    // binary eqrel is the only BYODS provider with a parallel implementation
+    for u in f_ds(false) { if u.tag.starts_with("ds-eqrel-binary") { out.push(u); } }
+    for u in out.iter_mut() {
+        u.variants.truncate(1);
+        let base = u.variants[0].clone();
+        u.variants.push(base.clone().with_kind(MacroKind::AscentPar, "ascent_par"));
+        let mut irp = base.clone().with_kind(MacroKind::AscentPar, "ascent_par+inter_rule_parallelism");
+        irp.attrs.push("#![inter_rule_parallelism]".into());
+        u.variants.push(irp);
+        u.tag = format!("par:{}", u.tag);
+    }
+    out
+}
+
 pub fn units(family: &str, thorough: bool) -> Vec<Unit> {
     match family {
         "shape" => f_shape(thorough),
@@ -622,6 +645,7 @@ pub fn units(family: &str, thorough: bool) -> Vec<Unit> {
         "agg" => f_agg(thorough),
         "timeout" => f_timeout(thorough),
         "ds" => f_ds(thorough),
+        "par" => f_par(thorough),
         _ => panic!("unknown family {}", family),
     }
 }
